@@ -48,14 +48,18 @@ Definition elem_key (v : env) (e : einfo) (ks : list anode) : res ekey :=
   let tag := (e_uri e, e_local e) in
   if negb (is_mergeable e) then Ok (tag, [], [])
   else
-    rid <- attr_r e s_id ;;
+    let rid := match e_ruri e with
+               | None => None                       (* elem.nsmap.get("r") *)
+               | Some u => alookup (Some u, s_id) (e_attrs e)
+               end in
+    let by_format := (f <- get_html_formatting e ks (env_x2h v) ;; Ok (tag, [], f)) in
     match rid with
     | Some (c :: r) =>
-        tgt <- of_opt KeyError (dict_get (c :: r) (env_rels v)) ;;
-        Ok (tag, tgt, [])
-    | _ =>
-        f <- get_html_formatting e ks (env_x2h v) ;;
-        Ok (tag, [], f)
+        match dict_get (c :: r) (env_rels v) with
+        | Some tgt => Ok (tag, tgt, [])
+        | None => by_format                         (* file.rels.get(...) is None *)
+        end
+    | _ => by_format
     end.
 
 (* one pass over a sibling list.  State: output so far (reversed), and the
